@@ -107,11 +107,16 @@ def _wchoice(rng, items, weights):
 
 def gen_layout(rng, code, start, nentries, low_rom=False):
     addr = start
-    types = 'cccccbbwwtgsui'
+    types = 'cccccbbwwtgsuii'
+    # 40% of the files get at least one ignored entry with several lines (operands elsewhere address its first and later lines)
+    force_i = rng.randrange(1, nentries) if nentries > 1 and rng.random() < 0.4 else None
     for n in range(nentries):
         if addr > 65000:
             break
         ctl = rng.choice(types) if n else rng.choice('ccb')
+        force_multi = n == force_i
+        if force_multi:
+            ctl = 'i'
         e = Entry(addr, ctl)
         if ctl == 'c':
             nins = rng.choice([1, 2, 3, 3, 4, 5, 6, 8, 12])
@@ -158,7 +163,25 @@ def gen_layout(rng, code, start, nentries, low_rom=False):
             e.ins.append(i)
             addr += nb
         else:  # i
-            if rng.random() < 0.5:
+            r = 0.0 if force_multi else rng.random()
+            if r < 0.5:
+                # ignored entry with several instruction/statement lines, some of them entry points
+                for k in range(rng.choice([2, 2, 3, 4, 6])):
+                    if rng.random() < 0.6:
+                        tmpl, size = rng.choice(PLAIN_KINDS)
+                        i = Ins(addr, ' ', 'plain', size)
+                        i.op = tmpl.format(n=rng.choice([0, 1, 8, 255]))
+                    elif rng.random() < 0.5:
+                        i = Ins(addr, ' ', 'DEFW', 2)
+                    else:
+                        nb = rng.choice([1, 2, 4])
+                        i = Ins(addr, ' ', 'plain', nb)
+                        i.op = 'DEFB ' + ','.join(str(rng.randrange(256)) for _ in range(nb))
+                    if k and rng.random() < 0.3:
+                        i.ctl = '*'
+                    e.ins.append(i)
+                    addr += i.size
+            elif r < 0.75:
                 i = Ins(addr, ' ', 'plain', 1)
                 i.op = 'DEFB 0'
                 e.ins.append(i)
@@ -632,6 +655,10 @@ def gen_case(rng):
         entry_addrs = [e.addr for e in code.live_entries()]
         c_entry_addrs = [e.addr for e in code.live_entries() if e.ctl == 'c']
         ignored = [i.addr for e in code.entries if e.ctl == 'i' for i in e.ins]
+        ignored_later = [i.addr for e in code.entries if e.ctl == 'i' for i in e.ins[1:]]
+        # ignored entries of the other disassemblies (never declared by @remote: ignored entries have no page)
+        other_ignored = [i.addr for oc in case.codes if oc is not code for e in oc.entries if e.ctl == 'i' for i in e.ins
+                         if i.addr not in own and i.addr not in remote_addrs]
         remote_addrs = [a for d in code.remote.values() for a in d]
         undeclared = [e.addr for oc in case.codes if oc is not code for e in oc.live_entries() if e.addr not in own and e.addr not in remote_addrs]
         label_n = 0
@@ -644,7 +671,15 @@ def gen_case(rng):
                 else:
                     r = rng.random()
                     pool = None
-                    if r < 0.3 and c_entry_addrs:
+                    if ignored and rng.random() < 0.14:
+                        # first or (more often) a later line of an ignored entry: must stay unlinked, there is no page for it
+                        if ignored_later and rng.random() < 0.7:
+                            pool, feat = ignored_later, 'ignored-entry-later-line'
+                        else:
+                            pool, feat = ignored, 'ignored-entry'
+                    elif other_ignored and rng.random() < 0.04:
+                        pool, feat = other_ignored, 'other-code-ignored-entry'
+                    elif r < 0.3 and c_entry_addrs:
                         pool, feat = c_entry_addrs, 'entry'
                     elif r < 0.55 and own_addrs:
                         pool, feat = own_addrs, 'instruction'
@@ -671,6 +706,8 @@ def gen_case(rng):
                             pool, feat = (near or [i.addr]), 'instruction'
                     target = rng.choice(pool)
                     f.add('operand:' + feat)
+                    if feat.startswith('ignored-entry'):
+                        f.add('operand:%s:%s' % (feat, 'DEFW/LD' if i.kind.startswith(('DEFW', 'LD')) else 'CALL/JP/JR/DJNZ'))
                     tmpl = next(k[1] for k in REF_KINDS if k[0] == i.kind)
                     i.op = tmpl.format(tg.num(target), cc=rng.choice(['Z', 'NZ', 'C', 'NC', 'PE', 'M']), cc2=rng.choice(['Z', 'NZ', 'C', 'NC']),
                                        rr=rng.choice(['HL', 'BC', 'DE', 'SP']), rr2=rng.choice(['BC', 'DE', 'SP']))
